@@ -111,7 +111,7 @@ pub fn search_c19(r: &mut Rng, iters: usize) -> bool {
         }
     }
     let pats = ["foo-[0-9]*", "foo>=1", "{a,b}-1", "foo", "", "foo>=1<", "{a", "a[", "foo<1>2", "pkg>=1.0<2", "*"];
-    let paths = ["cat/pkg", "../../cat/pkg", "cat", "cat/pkg/", "", "../cat/pkg", "cat/./pkg", "./cat/pkg", "/cat/pkg", "cat//pkg", "a/b/c"];
+    let paths = ["cat/pkg", "../../cat/pkg", "cat", "cat/pkg/", "", "../cat/pkg", "cat/./pkg", "./cat/pkg", "/cat/pkg", "cat//pkg", "a/b/c", "cat/pkg ", " cat/pkg", "cat/pkg/ ", "cat/pkg\t", "../../cat/pkg\n", "cat /pkg"];
     let chk = |s: &str| -> bool {
         let (e, a) = (expect_depend(s), real_depend(s));
         if e != a {
@@ -164,7 +164,8 @@ pub fn build_tree(root: &Path, spec: &str) {
         std::fs::create_dir_all(&p).unwrap();
         for (bit, fname) in [(1, "+COMMENT"), (2, "+CONTENTS"), (4, "+DESC")] {
             if mask & bit != 0 {
-                std::fs::write(p.join(fname), format!("{}/{}\n", name, fname)).unwrap();
+                // bit 16: the mandatory files exist but are empty (existence, not content, makes a package directory)
+                std::fs::write(p.join(fname), if mask & 16 != 0 { String::new() } else { format!("{}/{}\n", name, fname) }).unwrap();
             }
         }
         if extra < 14 {
@@ -194,6 +195,8 @@ pub fn expect_tree(spec: &str) -> String {
         let mut files = vec![];
         for (i, m) in META_NAMES.iter().enumerate() {
             let _ = m;
+            let empty = mask & 16 != 0 && i != extra && matches!(*m, "+COMMENT" | "+CONTENTS" | "+DESC");
+            if has(i) && empty { files.push(String::new()); continue; }
             files.push(if has(i) { format!("{}/{}\n", name, m) } else { "<err>".to_string() });
         }
         out.push(format!("{}|{}|{}|{}", name, b, v, files.join(",")));
@@ -226,7 +229,7 @@ pub fn real_meta_table() -> String {
         let back = MetadataEntry::from_filename(&n);
         s.push(format!("{}:{}", n, back == Some(e)));
     }
-    for bad in ["", "+", "COMMENT", "+comment", "+SIZE", "+SIZE_ALL ", "+DESCR", "+REQUIRED-BY"] {
+    for bad in ["", "+", "COMMENT", "+comment", "+SIZE", "+SIZE_ALL ", "+DESCR", "+REQUIRED-BY", "./+CONTENTS", "pkg-1.0/+DESC", "/+COMMENT", "+COMMENT/", " +DESC", "+DESC\n"] {
         s.push(format!("{:?}:{}", bad, MetadataEntry::from_filename(bad).is_none()));
     }
     s.join(" ")
@@ -236,7 +239,7 @@ pub fn expect_meta_table() -> String {
     for n in META_NAMES {
         s.push(format!("{}:true", n));
     }
-    for bad in ["", "+", "COMMENT", "+comment", "+SIZE", "+SIZE_ALL ", "+DESCR", "+REQUIRED-BY"] {
+    for bad in ["", "+", "COMMENT", "+comment", "+SIZE", "+SIZE_ALL ", "+DESCR", "+REQUIRED-BY", "./+CONTENTS", "pkg-1.0/+DESC", "/+COMMENT", "+COMMENT/", " +DESC", "+DESC\n"] {
         s.push(format!("{:?}:true", bad));
     }
     s.join(" ")
@@ -282,7 +285,7 @@ pub fn search_c20(r: &mut Rng, iters: usize) -> bool {
                 continue;
             }
             used.push(n);
-            let mask = match r.below(6) { 0 => 8, 1 => r.below(7) as u32, _ => 7 };
+            let mask = match r.below(7) { 0 => 8, 1 => r.below(7) as u32, 2 => 7 | 16, _ => 7 };
             spec.push_str(&format!("{}:{}:{};", n, mask, r.below(20)));
         }
         let root = scratch(&format!("c20-{}", round));
@@ -684,7 +687,8 @@ pub fn search_c17(r: &mut Rng, iters: usize) -> bool {
     let mut slow: Option<(String, Vec<u8>, Duration)> = None;
     // fixed inputs named in the property text
     for (e, i) in [("pattern", "foo>=99999999999999999999\u{fe}foo-1\u{fe}foo-2"), ("pkgname", "foo-99999999999999999999"), ("pkgname", "foo-1.0nb99999999999999999999"),
-                   ("metadata", "+SIZE_PKG\u{fe}notanumber"), ("pkgdb", "nodash\u{fe}x"), ("dewey", "foo>=1<\u{fe}foo-1"), ("dewey", "foo<1>\u{fe}foo-1"), ("dewey", ">\u{fe}a-1")] {
+                   ("metadata", "+SIZE_PKG\u{fe}notanumber"), ("pkgdb", "nodash\u{fe}x"), ("dewey", "foo>=1<\u{fe}foo-1"), ("dewey", "pkg>=1.alpha\u{fe}pkg-1.99999999999999999999"), ("dewey", "pkg<1.99999999999999999999\u{fe}pkg-1.rc1"),
+                   ("pattern", "pkg-[0-9]*\u{fe}pkg-1.99999999999999999999\u{fe}pkg-1.rc1"), ("pattern", "foo-[0-9]*\u{fe}f\u{fe}fo"), ("dewey", "foo<1>\u{fe}foo-1"), ("dewey", ">\u{fe}a-1")] {
         let bytes: Vec<u8> = i.chars().flat_map(|c| if c == '\u{fe}' { vec![0xfe] } else { c.to_string().into_bytes() }).collect();
         if let Err(p) = guarded(&w, e, &bytes) {
             witness("no_panic", &[("entry", e.to_string()), ("hexinput", hex(&bytes))], "returns", &p);
